@@ -38,7 +38,43 @@ def validate_one(doc, entry="json"):
         return {"outcome": "raise", "errors": [], "exc": classify_exc(e)}
     if not isinstance(errs, list):
         return {"outcome": "raise", "errors": [], "exc": {"type": "NotAList", "msg": repr(errs)[:100], "where": "validate"}}
-    return {"outcome": "accept" if not errs else "reject", "errors": [str(x)[:300] for x in errs[:12]], "exc": None}
+    res = {"outcome": "accept" if not errs else "reject", "errors": [str(x)[:300] for x in errs[:12]], "exc": None}
+    res["reused"] = _on_reused_instance(doc, errs)
+    return res
+
+
+_SHARED = {"v": None, "prev": None}
+
+
+def _on_reused_instance(doc, fresh_errs):
+    """The same document on a validator instance that this worker keeps using for every document it sees (documents
+    of one check resemble each other: same names with other ids, same paths with other contents).  Returns None when
+    the result equals the fresh one, else what differs, with the shortest history that reproduces it."""
+    from validation.schema_validator import SchemaValidator
+
+    def run(v, d):
+        try:
+            e = v.validate(json_string=json.dumps(d))
+            return ("ok", [str(x) for x in e]) if isinstance(e, list) else ("raise", "NotAList")
+        except BaseException as ex:  # noqa
+            return ("raise", type(ex).__name__)
+    if _SHARED["v"] is None:
+        _SHARED["v"] = SchemaValidator()
+    want = ("ok", [str(x) for x in fresh_errs])
+    prev = _SHARED["prev"]
+    got = run(_SHARED["v"], doc)
+    _SHARED["prev"] = doc
+    if got == want:
+        return None
+    out = {"fresh": want[1][:4] if want[0] == "ok" else want, "reused": got[1][:4] if got[0] == "ok" else got,
+           "verdict_differs": (want == ("ok", [])) != (got == ("ok", []))}
+    if prev is not None:
+        v2 = SchemaValidator()
+        run(v2, prev)
+        if run(v2, doc) == got:
+            out["previous_document"] = prev
+    _SHARED["v"] = SchemaValidator()      # start over, so that one divergence is not reported for every later document
+    return out
 
 
 def _job(args):
